@@ -106,14 +106,21 @@ def rotation_scenario(rng: random.Random):
                 pts = [grid[(i + c[0], j + c[1], k + c[2])] for c in hexref.XYZ]
                 mesh.add(cb.Loft(cb.Face(pts[:4]), cb.Face(pts[4:])))
     mesh.assemble()
-    axis = vmul(ez, rng.uniform(0.5, 2.0))      # non-unit
+    axis = vmul(ez, rng.choice([rng.uniform(0.3, 0.8), rng.uniform(1.2, 2.5)]) / vnorm(ez))      # non-unit: shorter or longer than 1
     radius = vdist(grid[ring[0]], centre)
-    clamps = [cb.RadialClamp(grid[ring[0]], centre, axis)]
+    start = list(grid[ring[0]])
+    # half of the runs bound the travel along the circle (arc length from where the clamp was created) to less than the
+    # way back to the untwisted position: the vertex ends against the bound, not beyond it
+    bound = 0.4 * abs(twist) * radius if rng.random() < 0.5 else None
+    clamps = [cb.RadialClamp(grid[ring[0]], centre, axis, [-bound, bound] if bound else None)]
 
     def on_circle(p, prm):
+        import math
         rel = vsub(p, centre)
         k = vmul(ez, 1.0 / vnorm(ez))
-        return (abs(vdot(rel, k)) < 1e-6 * scale and abs(vnorm(rel) - radius) < 1e-6 * scale, True)
+        a, b = vsub(start, centre), rel
+        arc = abs(math.atan2(vnorm(vcross(a, b)), vdot(a, b))) * radius
+        return (abs(vdot(rel, k)) < 1e-6 * scale and abs(vnorm(rel) - radius) < 1e-6 * scale, bound is None or arc <= bound * (1 + 1e-6) + 1e-9 * scale)
     preds = [on_circle]
     links = []
     for key in ring[1:][: rng.choice([1, 2, 3])]:
